@@ -30,7 +30,7 @@ func init() {
 		Rule: "RateLimitedIssuer.Evaluate(bytes) on requests built two ways: by pat-go's client, and entirely by the harness (own encoder, own HPKE sealing with the AAD of the draft, own key-blinded signer over crypto/ecdsa). Honest requests for a registered origin must be served and the response must finalize to a token valid under rsa.VerifyPSS. " +
 			"Must be rejected with an error and a nil response: every single-bit flip of an accepted encoding (exhaustive), every truncation, a trailing byte, a missing signature, unregistered origins (near misses of the registered names), requests sealed to another issuer's name key (key id kept and replaced), requests re-signed by an unrelated key, request key replaced and correctly re-signed (only the AAD binding catches it), AAD variants that drop or alter one component, inner requests truncated before encryption (with the empty origin registered). " +
 			"Differential part: on an issuer whose name key is derived from a seed known to the harness (verif-tagged hook) the harness decides every generated input itself (own parser, own HPKE open through go-hpke, own unpadding, origin lookup, crypto/ecdsa) - multi-bit and byte mutations, field splices between honest requests with and without re-signing, replaced-and-re-signed name key ids, (r, N-s), padded-origin and inner-request variants, foreign name keys, altered AADs - and Evaluate must agree. distinct_nontrivial = distinct (request, tampering class, position) and (class, reference reason) keys",
-		Floors:      []string{"all_one_and_two_byte_tails_rejected", "honest_signatures_ending_in_text_framing_served", "served_pat_go_client", "served_harness_built", "response_finalized_valid", "bitflips_rejected", "truncations_rejected", "unregistered_origin_rejected", "foreign_name_key_rejected", "resigned_rejected", "aad_binding_rejected", "inner_truncated_rejected", "failed_registration_origin_rejected", "served_after_many_late_refusals", "long_origin_requests_served", "client_requests_accepted_by_reference", "differential_agree_accept", "differential_agree_reject", "differential_reject_signature", "differential_reject_hpke-open", "differential_reject_unregistered-origin", "differential_reject_outer-parse"},
+		Floors:      []string{"unregistered_origin_rejected_after_lookup", "all_one_and_two_byte_tails_rejected", "honest_signatures_ending_in_text_framing_served", "served_pat_go_client", "served_harness_built", "response_finalized_valid", "bitflips_rejected", "truncations_rejected", "unregistered_origin_rejected", "foreign_name_key_rejected", "resigned_rejected", "aad_binding_rejected", "inner_truncated_rejected", "failed_registration_origin_rejected", "served_after_many_late_refusals", "long_origin_requests_served", "client_requests_accepted_by_reference", "differential_agree_accept", "differential_agree_reject", "differential_reject_signature", "differential_reject_hpke-open", "differential_reject_unregistered-origin", "differential_reject_outer-parse"},
 		Assumptions: []string{"enumerated part: acceptance is fixed by construction of each case; differential part: the issuer's name key comes from a known seed through the verif hook", "an inner request with trailing bytes after the padded origin is only counted (no rule in the statement)"},
 		Run:         runC07,
 	})
@@ -433,6 +433,20 @@ func runC07(c *core.Ctx) {
 					continue
 				}
 				w.mustReject(w.build(r, c07Opts{origin: o}).enc, fmt.Sprintf("unregistered-origin#%d", k), "unregistered_origin_rejected")
+				// asking the issuer about a name (the read-only accessors) registers nothing: no key comes back, and a
+				// request naming it is refused afterwards as before
+				var got any
+				pan, pv, _ := core.Guard(func() {
+					if kk := w.issuer.OriginIndexKey(o); kk != nil {
+						got = kk
+					}
+				})
+				if pan {
+					c.Violation("OriginIndexKey:panic", "OriginIndexKey panicked for an unregistered name: "+pv, map[string]any{"origin": o})
+				} else if got != nil {
+					c.Violation("OriginIndexKey:key-for-unregistered-origin", "OriginIndexKey returned a key for a name that was never registered", map[string]any{"origin": o})
+				}
+				w.mustReject(w.build(r, c07Opts{origin: o}).enc, fmt.Sprintf("unregistered-origin-after-lookup#%d", k), "unregistered_origin_rejected_after_lookup")
 			}
 			// sealed to another issuer's name key
 			w.mustReject(w.build(r, c07Opts{origin: origin, sealTo: w.nkO}).enc, "foreign-name-key:id-replaced", "foreign_name_key_rejected")
